@@ -61,7 +61,7 @@ REPLAY_PLANS = {
                   "thorough": [sim("U1", 800, 11, "Fam_C05", "NextSim_Measure"), sim("U2", 400, 11, "Fam_C05", "NextSim_Measure"),
                                sim("U3", 200, 11, "Fam_C05", "NextSim_Measure")]}),
     "C06": dict(
-        drivers={"quick": (24, 16, "kraus"), "thorough": (240, 30, "kraus")},
+        drivers={"quick": (24, 16, "kraus"), "thorough": (96, 24, "kraus")},
         cover=covers("F_Kraus"),
         actions={"kraus"},
         exhaustive={"quick": [("U1", 3, "Fam_C06")], "thorough": [("U1", 4, "Fam_C06")]},
@@ -82,7 +82,7 @@ REPLAY_PLANS = {
                   "thorough": [sim("U1", 800, 11, "Fam_C09", "NextSim_Povm"), sim("U2", 300, 10, "Fam_C09", "NextSim_Povm"),
                                sim("U3", 200, 10, "Fam_C09", "NextSim_Povm")]}),
     "C10": dict(
-        drivers={"quick": (12, 10, "fock"), "thorough": (240, 30, "fock")},
+        drivers={"quick": (12, 10, "fock"), "thorough": (48, 16, "fock")},
         cover={"quick": [cov("U1", "U1_ScriptsQ", "F_Resize", 220), cov("U2", "U2_ScriptsQ", "F_Resize", 160), cov("U4", "U4_Scripts", "F_Resize", 200)],
                "thorough": [cov("U1", "U1_Scripts", "F_Resize", 2500), cov("U2", "U2_Scripts", "F_Resize", 2500), cov("U4", "U4_Scripts", "F_Resize", 1500),
                             cov("U3", "U3_Scripts", "F_Resize", 600)]},
